@@ -1,3 +1,5 @@
+#[cfg(feature = "verif-hooks")]
+use crate::verif::fake_std as std;
 use std::{
     cell::RefCell,
     collections::HashSet,
